@@ -127,8 +127,11 @@ func buildHistory(c *lib.Case, w *aclhist.World) {
 		case p == aclhist.None:
 			grant()
 		case p == aclhist.Writer:
-			if rng.Intn(2) == 0 {
+			if x := rng.Intn(8); x < 3 {
 				do(I{Kind: "perm_change", Actor: "owner", Target: "w", Perm: aclhist.Reader})
+			} else if x == 3 {
+				// one record changes w twice: confirmed as writer, then demoted - the record's verdict on w is "reader"
+				do(I{Kind: "perm_change_twice", Actor: "owner", Target: "w", Perm: aclhist.Writer, Perm2: aclhist.Reader})
 			} else if rng.Intn(4) == 0 {
 				if do(I{Kind: "leave_request", Actor: "w"}) {
 					do(I{Kind: "remove", Actor: "owner", Target: "w"})
@@ -137,8 +140,13 @@ func buildHistory(c *lib.Case, w *aclhist.World) {
 				do(I{Kind: "remove", Actor: "owner", Target: "w"})
 			}
 		default: // reader
-			if rng.Intn(3) == 0 {
+			if x := rng.Intn(6); x < 2 {
 				do(I{Kind: "remove", Actor: "owner", Target: "w"})
+			} else if x == 2 {
+				// promoted and demoted again inside one record: w stays a reader
+				do(I{Kind: "perm_change_twice", Actor: "owner", Target: "w", Perm: aclhist.Writer, Perm2: aclhist.Reader})
+			} else if x == 3 {
+				do(I{Kind: "perm_change_twice", Actor: "owner", Target: "w", Perm: aclhist.Reader, Perm2: aclhist.Writer})
 			} else {
 				do(I{Kind: "perm_change", Actor: "owner", Target: "w", Perm: aclhist.Writer})
 			}
